@@ -59,6 +59,7 @@ PLANS = {
         "scenarios": [
             S("c08_fifo", 1600, 48000),
             S("c08_hops", 900, 27000),
+            S("c08_race", 3000, 60000),    # several peers connect at the same instant through different endpoints (scenarios/c08b_race.cc)
         ],
         "assumptions": [
             "a shrink of NNG_OPT_SENDBUF/RECVBUF may discard queued messages (property C18): serials offered before a "
